@@ -180,12 +180,12 @@ fn blocking_body(ind: bool, op: u8) {
     kani::cover!(st == 2 && k == 511 && sector > 0xffff_ffff);
 }
 
-// @harness props=C14,C08,C09 tier=quick timeout=1800
+// @harness props=C14,C08 tier=quick timeout=1800
 #[kani::proof]
 #[kani::unwind(50)]
 fn c14_read_direct() { blocking_body(false, 0) }
 
-// @harness props=C14,C08,C09 tier=quick timeout=1800
+// @harness props=C14,C08 tier=quick timeout=1800
 #[kani::proof]
 #[kani::unwind(50)]
 fn c14_write_indirect() { blocking_body(true, 1) }
